@@ -127,6 +127,7 @@ class Director:
         self.hooks = []  # callables(key, phase, info) run at every point
         self.cancel_plan = self.plan.get('cancel')
         self.cancel_fired = None
+        self.cancel_began = False
         self.on_cancel_point = None  # callable(plan) installed by the scenario
         self.points = 0
         self.keys_seen = []
@@ -289,9 +290,16 @@ class GateController(threading.Thread):
     def run(self):
         from . import watchdog
 
+        with watchdog.polling():
+            self._loop(watchdog)
+
+    def _loop(self, watchdog):
         while not self.stop_flag and not self.d.disabled:
             parked = self.d.parked_keys()
             if parked:
+                if self.gate.get('after_cancel_begin') and not self.d.cancel_began:
+                    time.sleep(0.0005)
+                    continue
                 if watchdog.quiescent(director=self.d):
                     parked = self.d.parked_keys()
                     if not parked:
